@@ -98,12 +98,14 @@ func convertTrace(evs []verif.Event, w *hlib.NDJSON, report *Report) int {
 			put(map[string]interface{}{"ev": e.Ev, "t": S(e, "t"), "deleted": B(e, "deleted")})
 		case "TDeleted", "TClosed", "TPumpStopped":
 			put(map[string]interface{}{"ev": e.Ev, "t": S(e, "t")})
-		case "CPauseBegin", "CPauseEnd":
+		case "CPauseBegin":
 			put(map[string]interface{}{"ev": e.Ev, "c": S(e, "c"), "p": B(e, "p")})
+		case "CPauseEnd":
+			put(map[string]interface{}{"ev": e.Ev, "c": S(e, "c"), "p": B(e, "p"), "now": us(I(e, "now"))})
 		case "TPauseBegin", "TPauseEnd":
 			put(map[string]interface{}{"ev": e.Ev, "t": S(e, "t"), "p": B(e, "p")})
 		case "CPutBegin":
-			put(map[string]interface{}{"ev": e.Ev, "c": S(e, "c"), "id": S(e, "id"), "att": I(e, "att")})
+			put(map[string]interface{}{"ev": e.Ev, "c": S(e, "c"), "id": S(e, "id"), "att": I(e, "att"), "now": us(I(e, "now"))})
 		case "CPutEnd":
 			put(map[string]interface{}{"ev": e.Ev, "c": S(e, "c"), "id": S(e, "id"), "where": S(e, "where"), "ok": B(e, "ok")})
 		case "CRecv":
@@ -154,6 +156,8 @@ func convertTrace(evs []verif.Event, w *hlib.NDJSON, report *Report) int {
 			put(map[string]interface{}{"ev": e.Ev, "k": I(e, "k"), "ready": B(e, "ready"), "rdy": I(e, "rdy"), "inflight": I(e, "inflight"), "paused": B(e, "paused")})
 		case "KRdyBegin", "KRdyEnd":
 			put(map[string]interface{}{"ev": e.Ev, "k": I(e, "k"), "n": I(e, "n")})
+		case "KRdyDone":
+			put(map[string]interface{}{"ev": e.Ev, "k": I(e, "k"), "n": I(e, "n"), "now": us(I(e, "now"))})
 		case "KEmpty", "KCls", "KGone":
 			put(map[string]interface{}{"ev": e.Ev, "k": I(e, "k")})
 		case "Send":
